@@ -78,7 +78,7 @@ func TestC04(t *testing.T) {
 		r.Violation(map[string]string{"kind": "quic_grease_version_constant"}, "GetGREASEVersion never varied", nil)
 	}
 	// marshalled transport parameters with GREASE
-	for i := 0; i < mon.Pick(2000, 20000); i++ {
+	for i := 0; i < mon.Pick(2000, 200000); i++ {
 		rg := Sub("C04tp", i)
 		tps := tls.TransportParameters{
 			tls.InitialMaxData(rg.Uint64() >> 2),
@@ -108,7 +108,7 @@ func TestC04(t *testing.T) {
 	}
 
 	// (c) parrots and fingerprinted copies
-	conns := mon.Pick(128, 2000)
+	conns := mon.Pick(128, 12000)
 	type target struct {
 		name string
 		id   tls.ClientHelloID
